@@ -183,7 +183,10 @@ def showStats (st : Stats) : String :=
 
 def step (st : DSt) (toks : List String) : DSt × String :=
   match toks with
-  | "schema" :: _ => (st, "ok")
+  | "schema" :: _ =>
+    -- a new schema: `model_validate`, the field table and the coercions are those of the new class; the recorded
+    -- environment starts afresh (the Chaperone, its configuration and its counters stay)
+    ({ st with table := #[], texts := #[], fieldsA := [], dicts := #[], ofd := #[], prims := #[] }, "ok")
   | "env" :: "A" :: fs =>
     ({ st with fieldsA := fs.map fun f => match f.splitOn ":" with | [k, a] => (natD k, annOf a) | _ => (0, .other) }, "ok")
   | ["env", "D", j, "list"] => ({ st with dicts := st.dicts.push (natD j, none) }, "ok")
@@ -222,6 +225,23 @@ def step (st : DSt) (toks : List String) : DSt × String :=
           showRat r.confidence, showList (r.coercions.map showNote), showList (r.attempts.map showAtt),
           showCalls st st.table tr]
         ++ " ## " ++ joinSp tags)
+    | ⟨tr, .raise _⟩ => (st, joinSp ["raise", showCalls st st.table tr])
+  | ["heal", n, decay, outs] =>
+    let texts := (outs.splitOn ",").map decodeCps
+    let gen : Nat → Text := fun k => (texts[k]?).getD (texts.getLast?.getD [])
+    match heal (mkEnv st st.table) st.cfg st.stats (ratOf decay) (natD n) gen with
+    | ⟨tr, .ok (stats', h)⟩ =>
+      let oc := match h.outcome with | .validFirstTry => "v" | .healed => "h" | .degraded => "d"
+      let atts := h.attempts.map fun a => s!"{a.number}{showBool a.success}:{showRat a.confidence}"
+      let fo := match h.folded with
+        | none => "none"
+        | some r =>
+          let sid := match r.struct with | some s => toString s | none => "none"
+          joinSp [showBool r.valid, sid, showOptStrat r.strategyUsed, showRat r.confidence,
+            showList (r.coercions.map showNote)]
+      ({ st with stats := stats' },
+        joinSp [oc, showRat h.finalConfidence, showBool h.tagged, showList atts, "folded:", fo, showCalls st st.table tr]
+        ++ " ## " ++ joinSp (("heal:" ++ oc) :: convTags tr))
     | ⟨tr, .raise _⟩ => (st, joinSp ["raise", showCalls st st.table tr])
   | ["stats"] => (st, showStats st.stats)
   | ["resetstats"] => ({ st with stats := Stats.zero }, "ok")
